@@ -50,6 +50,57 @@ let oracle_c19 (src : string) (impl : string) : string =
   | "PANIC" :: _ | "CRASH" :: _ -> "FAIL:lexer crashed"
   | _ -> "FAIL:unexpected observation"
 
+(* C19, cursors: a cursor at byte offset k lies in token i exactly when k is inside the byte
+   range of token i (offsets recovered from the positions with the specification's lc), hence in
+   at most one token *)
+let oracle_c19_cursors (src : string) (impl : string) : string =
+  match split_on '\t' impl with
+  | [ "LEXC"; toks; rows ] -> (
+      match parse_tokens toks with
+      | None -> "FAIL:unparsable token list (overrun?)"
+      | Some ts -> (
+          let input = bytes_of_string src in
+          match E.check_tokens input ts with
+          | Some r -> "FAIL:" ^ reason_c19 (int_of_nat r)
+          | None ->
+              let n = String.length src in
+              let lcs = Array.init (n + 1) (fun k -> E.lc input (nat_of_int k)) in
+              let off (l, c) =
+                let r = ref (-1) in
+                Array.iteri (fun k (l', c') -> if !r < 0 && int_of_nat l' = l && int_of_nat c' = c then r := k) lcs;
+                !r
+              in
+              let ranges =
+                List.map (fun t -> (off (int_of_nat t.E.tsl, int_of_nat t.E.tsc), off (int_of_nat t.E.tel, int_of_nat t.E.tec), t)) ts
+              in
+              let rws = Array.of_list (split_on ',' rows) in
+              if Array.length rws <> n + 1 then "FAIL:cursor rows missing"
+              else begin
+                let bad = ref "" in
+                Array.iteri
+                  (fun k row ->
+                    if !bad = "" then begin
+                      if String.length row <> List.length ts then bad := "row width"
+                      else begin
+                        let ones = ref 0 in
+                        List.iteri
+                          (fun i (s, e, t) ->
+                            let got = row.[i] = '1' in
+                            if got then incr ones;
+                            let want = s >= 0 && e >= 0 && s <= k && k <= e in
+                            if got <> want then
+                              bad := Printf.sprintf "Contains of token %d at offset %d is %b, its byte range is [%d,%d]" i k got s e)
+                          ranges;
+                        if !bad = "" && !ones > 1 then bad := Printf.sprintf "cursor at offset %d lies in %d tokens" k !ones
+                      end
+                    end)
+                  rws;
+                if !bad = "" then "ok" else "FAIL:" ^ !bad
+              end))
+  | "HANG" :: _ -> "FAIL:lexer did not return"
+  | "PANIC" :: _ | "CRASH" :: _ -> "FAIL:lexer crashed"
+  | _ -> "FAIL:unexpected observation"
+
 (* the expected result computed by the extracted specification travels with the case
    as a trailing field "S:..." (written by Spec.expand) *)
 let expected_field (f : string list) : string option =
@@ -230,6 +281,12 @@ let oracle (f : string list) (impl : string) : string =
   | None ->
   match f with
   | id :: _ when starts_with "C08" id -> oracle_c08 id impl
+  | id :: "render" :: src :: _ when starts_with "C09" id ->
+      (* the hypothesis of the never-panics theorem must hold for what the parser model returns *)
+      (match E.parse_source (bytes_of_string (unhex src)) with
+       | E.ParsedOk p when not (E.wf_program p) ->
+           "FAIL:the parsed program is not well-formed (Spec/Wf.v): the never-panics theorem does not cover it"
+       | _ -> oracle_c09 impl)
   | id :: _ when starts_with "C09" id -> oracle_c09 impl
   | _ ->
   match expected_field f with
@@ -237,4 +294,5 @@ let oracle (f : string list) (impl : string) : string =
   | None ->
   match f with
   | id :: "lex" :: src :: _ when starts_with "C19" id -> oracle_c19 (unhex src) impl
+  | id :: "lexc" :: src :: _ when starts_with "C19" id -> oracle_c19_cursors (unhex src) impl
   | _ -> "na"
